@@ -33,6 +33,10 @@ type ByteDir struct {
 	Window int
 	// Stalled: the driver delivers nothing on this direction (a peer that stopped reading).
 	Stalled bool
+	// PreWrite, if set, is called at the start of every Write, before anything is written
+	// (a scheduling point between two Write calls; each Write itself stays atomic, as the
+	// Write of a socket or of a multiplexed stream is).
+	PreWrite func()
 	// SlowWrite, if set, is called in the middle of every Write (see Write).
 	SlowWrite func()
 	// ReadLog records every successful underlying Read as (offset, n).
@@ -60,6 +64,9 @@ func (d *ByteDir) bcast() {
 
 // Write appends to the transit buffer.
 func (d *ByteDir) Write(b []byte) (int, error) {
+	if d.PreWrite != nil {
+		d.PreWrite()
+	}
 	d.mu.Lock()
 	defer d.mu.Unlock()
 	if d.rerr != nil {
